@@ -5,7 +5,7 @@
    Model/Config.v -- the optimiser kernels behind SPDC::try_as_optimum.  Definitions only. *)
 From Coq Require Import Reals List.
 From Coquelicot Require Import Complex.
-From SpdVerif Require Import Base.NumOps Model.NumInst Spec.ConfigSpec Model.ConfigTypes Model.Config.
+From SpdVerif Require Import Base.CfgNumOps Model.NumInst Spec.ConfigSpec Model.ConfigTypes Model.Config.
 Import ListNotations.
 Local Open Scope R_scope.
 
